@@ -275,7 +275,7 @@ def run(repo, rep, tier):
             if not isinstance(v, dict) or nm not in probe_table:
                 continue
             cert = bool(probe_table[nm].get('cert'))
-            fails, warns = _hostkey_rating.rate_key(_blk, hk_consts, nm, cert, v.get('hostkey_size', 0), v.get('ca_key_type', '') or '', v.get('ca_key_size', 0) or 0, on_eval=rep.evals)
+            fails, warns = _hostkey_rating.rate_key(_blk, hk_consts, nm, cert, v.get('hostkey_size', 0), v.get('ca_key_type', '') or '', v.get('ca_key_size', 0) or 0, on_eval=rep.evals, repo=repo)
             nrated += 1
             rep.check('policy-no-fail', '%s %s at the prescribed sizes draws no failure from the host-key probe' % (w, nm), not fails, polnode,
                       'a server configured exactly per built-in policy %r is failed by the host-key probe: %s (%s bits%s) -> %s' % (pname, nm, v.get('hostkey_size'), (', %s CA %s bits' % (v.get('ca_key_type'), v.get('ca_key_size'))) if v.get('ca_key_type') else '', fails[:1]),
